@@ -31,13 +31,13 @@ CLAIMS = {
         "technique": RM,
     },
     "C02": {
-        "text": "All 3840 consulted cells of the transition function compared with the reference machine, every callback (with arguments) compared event-for-event on bounded-exhaustive strings and seeded grammar streams that exercise the 32/2/16/65535 limits, CAN/SUB replay from every state.  Exploration: exhaustive for the finite table, sampled for the unbounded stream space.",
+        "text": "All 3840 consulted cells of the transition function compared with the reference machine, every callback (with arguments) compared event-for-event on bounded-exhaustive strings and seeded grammar streams that exercise the 32/2/16/65535 limits, CAN/SUB replay from every state, a clone of the parser taken at any point continues like the original, and the iterator adapters of every dispatched parameter list agree with plain iteration.  Exploration: exhaustive for the finite table, sampled for the unbounded stream space.",
         "design_ref": "7 C02, 3.1, 8.2, 8.3",
         "note": "trusts refmodel::vt; UTF-8 decoding follows the utf8parse contract the crate documents as out of band",
         "technique": RM + "; exhaustive table-cell comparison",
     },
     "C03": {
-        "text": "Every partition of every enumerated short input and 7 chunkers + one targeted cut per parser state on long streams; chunked output and final adapter state compared with the one-shot run of the same entry point.  Exploration over (input, partition) pairs; cut-state coverage matrix reported.",
+        "text": "Every partition of every enumerated short input and 7 chunkers + one targeted cut per parser state on long streams; chunked output and final adapter state compared with the one-shot run of the same entry point (also through StrippedBytes::extend, and with the one-shot iterators consumed partly by hand and finished through to_string / Display / into_vec).  Exploration over (input, partition) pairs; cut-state coverage matrix reported.",
         "design_ref": "7 C03",
         "note": "metamorphic oracle (no model needed); adapter state compared through the public Clone/PartialEq + probe suffixes",
         "technique": "runtime monitoring: metamorphic chunked-vs-one-shot oracle with clone-and-probe of the final state, exhaustive partitions",
@@ -55,19 +55,19 @@ CLAIMS = {
         "technique": RM,
     },
     "C17": {
-        "text": "All 17x17 colour pairs on every writer kind, and all fault scripts up to the depth bound at each of the up-to-four inner writes; output parsed and interpreted by the reference models, return value compared with the bytes the writer accepted.",
+        "text": "All 17x17 colour pairs on every writer kind (Vec, File, the three dyn Write trait-object kinds, and Stdout / StdoutLock / Stderr / StderrLock in child processes with both pipes captured), all fault scripts up to the depth bound at each of the up-to-four inner writes, File after a failed call, and several threads writing through the process-wide handles (the pipe must be a concatenation of whole frames); output parsed and interpreted by the reference models, return value compared with the bytes the writer accepted.",
         "design_ref": "7 C17",
         "note": "trusts refmodel::{vt,sgr}",
         "technique": "runtime monitoring: scripted fault-injecting writer + reference interpretation of the accepted bytes, exhaustive colour pairs and fault scripts",
     },
     "C18": {
-        "text": "The Windows-only stream source is compiled from the working tree into the harness and driven against a recording / misbehaving console: all console scripts up to the depth bound x short inputs x 4 APIs, SGR-grammar texts under chunkings, hostile streams.  WinconStream::write reporting a buffer as consumed after a short console write is a recorded known finding (F14).",
-        "design_ref": "7 C18, 6 F14",
+        "text": "The Windows-only stream source is compiled from the working tree into the harness and driven against a recording / misbehaving console: all console scripts up to the depth bound x short inputs x 7 call shapes (write, write_all, write_vectored, and write! with run-time, literal, large and char-sized fragments), SGR-grammar texts under chunkings, long runs around 2^k bytes, hostile streams, and lock() on the standard-stream variants in child processes.  A write that failed with Interrupted is retried with the same buffer (std Write contract).  Two recorded known findings: write reports a buffer as consumed after a short console write (F14) and is not retry-safe after Interrupted (F16).",
+        "design_ref": "7 C18, 6 F14 F16, 9",
         "note": "covers the platform-independent stream only (as the property says); Windows console API code is never executed here",
         "technique": "runtime monitoring: recording console writer + reference run model, exhaustive fault scripts",
     },
     "C05": {
-        "text": "Everything a style can render is parsed and interpreted by independent VT and SGR models: exhaustive over effect sets and every colour value per slot, seeded random combinations, ~240 format-flag specs on a subset; Display, write_to and reset paths compared byte for byte.",
+        "text": "Everything a style can render is parsed and interpreted by independent VT and SGR models: exhaustive over effect sets and every colour value per slot, seeded random combinations, ~240 format-flag specs on a subset (the alternate flag also on render()); Display, write_to and reset paths compared byte for byte, the io::Write path also into writers that take one or three bytes per call, fail with Interrupted, or gather.",
         "design_ref": "7 C05, 8.4",
         "note": "trusts refmodel::{vt,sgr}; underline codes read as independent flags",
         "technique": RM,
@@ -91,13 +91,13 @@ CLAIMS = {
         "technique": RM,
     },
     "C13": {
-        "text": "The set laws are checked on all 16.7M pairs of effect sets and all single sets, the colour bijection on all 16/256 values; setter/getter/operator laws on seeded random styles.  The finite part of the statement is enumerated completely.",
+        "text": "The set laws are checked on all 16.7M pairs of effect sets and all single sets, the colour bijection on all 16/256 values; setter/getter/operator laws on seeded random styles; iterator laws after partial consumption, Debug under format flags, ==/!= complements and structural equality / ordering / hashing of colour values.  The finite part of the statement is enumerated completely.",
         "design_ref": "7 C13",
         "note": "the model is a u16 bit set built from contains() observations only (no assumption on the bit layout)",
         "technique": "runtime monitoring: exhaustive law checking against a bit-set model",
     },
     "C16": {
-        "text": "For each of the five adapters the target library renders the converted style and an independent SGR interpreter reads it back: every colour value in every slot, every palette pair and every effect set are enumerated (factorised), plus seeded random styles.  Exploration with the factorised finite space covered completely.  termcolor's dropped strikethrough is a recorded known finding (F13).",
+        "text": "For each of the five adapters the target library renders the converted style and an independent SGR interpreter reads it back: every colour value in every slot, every palette pair and every effect set are enumerated (factorised), plus seeded random styles; nothing may become bright; for termcolor a second set_color replaces the first.  Exploration with the factorised finite space covered completely.  termcolor's dropped strikethrough is a recorded known finding (F13).",
         "design_ref": "7 C16, 8.8, 6 F11-F13",
         "note": "trusts refmodel::sgr and the third-party libraries' own renderers; the expressibility table is an assumption taken from their public APIs",
         "technique": "runtime monitoring: round trip through the target library's renderer + reference SGR interpreter, exhaustive factorised enumeration",
@@ -109,19 +109,19 @@ CLAIMS = {
         "technique": "runtime monitoring: one monitor binary per feature configuration + differential reference-model oracle",
     },
     "C08": {
-        "text": "Seeded operation sequences are applied in lock-step to every constructor / choice of AutoStream, to StripStream and to the bare writer, over four writer kinds (in-memory, borrowed, boxed dyn with injected short counts and errors, file); results of every call, reported mode and recovered bytes are compared.",
+        "text": "Seeded operation sequences are applied in lock-step to every constructor / choice of AutoStream, to StripStream and to the bare writer, over the writer kinds (in-memory, borrowed, boxed dyn with injected short counts and errors, &mut dyn / Box<dyn + Send>, the deprecated Buffer, file); results of every call, reported mode and recovered bytes are compared, and the bytes each call consumed re-sent with write_all only must give the same output.  Further lanes: to_adapted_string against the stream it stands in for (C09 child log + generated texts), sequences split across lock() (child process), and anstream built with the feature sets none / auto / wincon.",
         "design_ref": "7 C08",
         "note": "metamorphic oracle (Never == StripStream, AlwaysAnsi/Always == identity); Windows-only Wincon arm is not reachable on this platform",
         "technique": "runtime monitoring: lock-step differential execution of operation histories against reference streams",
     },
     "C09": {
-        "text": "The whole finite configuration space named by the property (3072 environments x 5 stream kinds, terminal and non-terminal) is enumerated in a single-threaded child and every decision logged; an offline checker evaluates the documented decision table over the event log and requires every tuple to be present.  COLORTERM, the clap flag mapping and unusual values are covered separately.",
+        "text": "The whole finite configuration space named by the property (3072 environments x 9 stream kinds, stdout / stderr on pipes, on a pty and in the two mixed layouts, and with descriptors 1 and 2 re-attached while the process runs) is enumerated in a single-threaded child and every decision logged; an offline checker evaluates the documented decision table over the event log and requires every tuple to be present.  COLORTERM, the clap flag mapping and unusual values are covered separately.",
         "design_ref": "7 C09, 3.4",
         "note": "needs a pty for the terminal half (inconclusive, not passed, if none can be opened); Windows-specific probes are not executed",
         "technique": "runtime monitoring: exhaustive configuration enumeration in a child process + offline event-log checker against a decision table",
     },
     "C19": {
-        "text": "Real threads print uniquely tagged multi-fragment records through every print path into pipes; an offline checker verifies contiguity, exactly-once and per-thread order on the byte streams and reports how many thread switches it saw.  The global choice is checked as an atomic register over recorded histories, natively, under Miri (16/128 scheduler seeds, with a canary race that must be reported) and under ThreadSanitizer (thorough).  Schedules are those the OS / Miri produced: counted, not enumerated.",
+        "text": "Real threads print uniquely tagged multi-fragment records through twelve print paths (macros, stdout()/stderr(), lock(), &mut / Box handles; also in a build with anstream's `test` feature) into pipes; an offline checker verifies contiguity, exactly-once and per-thread order on the byte streams and reports how many thread switches it saw.  The global choice is checked as an atomic register over recorded histories, natively, under Miri (16/128 scheduler seeds, with a canary race that must be reported) and under ThreadSanitizer (thorough).  Schedules are those the OS / Miri produced: counted, not enumerated.",
         "design_ref": "7 C19, 5",
         "note": "delay injection is on the caller side (Display impls); no hook inside the library",
         "technique": "runtime monitoring: offline history checker over pipe output (contiguity / exactly-once / order), register history checker, Miri many-seeds and ThreadSanitizer lanes",
